@@ -135,6 +135,49 @@ mod real {
                     }
                 }
             }
+            Some("fuzz") => {
+                // debugging aid for harness/oracle development (NOT part of any verdict)
+                let name = &args[2];
+                let seed: u64 = args[3].parse().unwrap();
+                let iters: usize = args[4].parse().unwrap();
+                let f = HARNESSES.iter().find(|(n, _)| n == name).unwrap_or_else(|| panic!("no harness {name}")).1;
+                let alpha: &[u8] = b"aZ09:/?#[]@.%41vf-+!;=~2./:/?#@%..//::\xc3\xa9\xe2\x82\xac\xf0\x90\x80\x80\x00\x01\x02\x03\x04\x05\x06\x07\x08";
+                let mut rng = Rng(seed.wrapping_mul(0x9E3779B97F4A7C15) | 1);
+                panic::set_hook(Box::new(|_| {}));
+                let (mut pass, mut assume, mut fail) = (0usize, 0usize, 0usize);
+                for _ in 0..iters {
+                    let mut v = Vec::with_capacity(96);
+                    for _ in 0..96 {
+                        v.push(alpha[(rng.next() % alpha.len() as u64) as usize]);
+                    }
+                    native::load(&v);
+                    native::FUZZ.with(|f| *f.borrow_mut() = true);
+                    let r = panic::catch_unwind(f);
+                    match r {
+                        Ok(()) => pass += 1,
+                        Err(e) => {
+                            if e.is::<native::AssumeFailed>() {
+                                assume += 1
+                            } else if e.is::<native::OutOfInput>() {
+                                assume += 1
+                            } else {
+                                fail += 1;
+                                let msg = e
+                                    .downcast_ref::<String>()
+                                    .cloned()
+                                    .or_else(|| e.downcast_ref::<&str>().map(|s| s.to_string()))
+                                    .unwrap_or_default();
+                                let rec = native::RECORD.with(|r| r.borrow().clone());
+                                if fail <= 5 {
+                                    let hex: String = rec.iter().map(|b| format!("{:02x}", b)).collect();
+                                    println!("FAIL {msg}\n  replay-hex {hex}\n  text {:?}", String::from_utf8_lossy(&rec));
+                                }
+                            }
+                        }
+                    }
+                }
+                println!("FUZZ pass={pass} assume_failed={assume} fail={fail}");
+            }
             Some("accepts") => {
                 let (real, table) = verdicts(&args[2], &unhex(&args[3]));
                 println!("REAL {real} TABLE {table}");
